@@ -32,6 +32,8 @@ NQuick == {1, 2, 3, 5}
 NBig == {12}
 NAll == 1..12
 PivQuick == {<<0, 0>>, <<3, -2>>}
+PivOne == {<<3, -2>>}
+DirsThree == {<<3, 4, 5>>, <<-12, 5, 13>>, <<0, 1, 1>>}
 PivAll == {<<0, 0>>, <<3, -2>>, <<-7, 5>>, <<1, 1>>}
 DirsQuick == {<<3, 4, 5>>, <<-12, 5, 13>>, <<0, 1, 1>>, <<-1, 0, 1>>, <<15, -8, 17>>}
 DirsSmall == UNION {Variants(d) : d \in {<<1, 0, 1>>, <<3, 4, 5>>, <<5, 12, 13>>}} \ {<<1, 0, 1>>}
@@ -192,8 +194,8 @@ InvRotate == Done /\ op = "rotate" =>
                    /\ shape.k # "compound" =>
                         LET a0 == Area(shape)  a1 == Area(res.rot)  h2 == Sq(arg[2][3])
                         IN a1[1] * a0[3] = a0[1] * h2 * a1[3] /\ a1[2] * a0[3] = a0[2] * h2 * a1[3]
-(* rotating back restores the region (membership at the original positions, scaled units) *)
+(* rotating back by the inverse direction restores every parameter (expressed in units 1/(U h^2)) *)
 InvRotateBack == Done /\ op = "rotate" =>
                    LET e == arg[2]  back == Rotate(res.rot, <<arg[1][1] * e[3], arg[1][2] * e[3]>>, DirInv(e))
-                   IN \A p \in WSet : Member(back, <<p[1] * Sq(e[3]), p[2] * Sq(e[3])>>) = Member(shape, p)
+                   IN back = ScaleDirs(Scale(shape, Sq(e[3])), Sq(e[3]))
 =============================================================================
